@@ -44,7 +44,7 @@ DERIVED_ON_LOAD = {"*": ("area", "volume"), "Core": ("maxAssemNum",),
 TYPED_PARAMS = {"comp": [("pinNum", "ityped")], "block": [("THhotChannelFuelODT", "ftyped"), ("THhotChannel", "ityped"), ("topIndex", "ityped")],
                 "assem": [("THorificeZone", "ityped"), ("multiplicity", "ityped")], "core": [("cyclics", "ityped"), ("coupledIteration", "ityped")]}
 OPS = ["freecoord", "parammany", "bookkeeping", "param", "param", "param", "temp", "ndens", "swap", "rotate", "discharge", "fullcore", "time", "unset",
-       "typed", "addnuc"]
+       "typed", "addnuc", "emptygrid"]
 EXCLUDE_KNOWN = {}
 
 
@@ -80,11 +80,30 @@ def _op():
     )
 
 
+def _spec_with_variants():
+    """The shared reactor spec plus input details only this property cares about: system origins with x != y != z (objects whose
+    parent has no grid sit at free coordinates) and solids whose input temperature is 0.0 C."""
+    fl = st.floats(-300.0, 300.0).map(lambda x: round(x, 1))
+    origin = st.one_of(st.none(), st.tuples(fl, fl, fl).map(list))
+
+    def merge(t):
+        spec, co, so, tins = t
+        spec = dict(spec)
+        if co is not None:
+            spec["coreOrigin"] = co
+        if so is not None and spec.get("sfp"):
+            spec["sfpOrigin"] = so
+        spec["designs"] = [dict(d, tin=tins[i % len(tins)]) for i, d in enumerate(spec["designs"])]
+        return spec
+
+    return st.tuples(rg.reactor_spec(max_rings=3, max_blocks=3), origin, origin,
+                     st.lists(st.sampled_from([25.0, 25.0, 0.0, 20.0]), min_size=3, max_size=3)).map(merge)
+
+
 def strategy(tier):
     return st.fixed_dictionaries(
         {
-            "spec": st.one_of(rg.reactor_spec(max_rings=3, max_blocks=3), rg.reactor_spec(max_rings=3, max_blocks=3),
-                              rg.reactor_spec(max_rings=3, max_blocks=3), rg.rzt_spec()),
+            "spec": st.one_of(_spec_with_variants(), _spec_with_variants(), _spec_with_variants(), rg.rzt_spec()),
             "program": st.lists(_op(), min_size=0, max_size=8),
             "reload": st.booleans(),
             # None: one snapshot after the whole program; k: a first snapshot after k operations, the rest of the program, then a
@@ -277,6 +296,17 @@ def apply_program(cs, r, program, out, counts, partial_nodefault=False, cyc_step
             c = comps[op["obj2"] % len(comps)]
             c.spatialLocator = grids.CoordinateLocation(round(op["factor"], 3), round(op["T"] / 500.0, 3), 0.0, b.spatialGrid)
             counts["freecoord"] += 1
+        elif kind == "emptygrid":
+            # a block whose grid holds no cached index locations (built with numRings=0) and whose children all sit at free
+            # coordinates in it
+            blocks = [b for a in r.core for b in a if b.spatialGrid is None and r.core.geomType == geometry.GeomType.HEX]
+            if not blocks:
+                continue
+            b = blocks[op["obj"] % len(blocks)]
+            b.spatialGrid = grids.HexGrid.fromPitch(round(0.5 + op["factor"], 3), numRings=0, armiObject=b)
+            for n, c in enumerate(b):
+                c.spatialLocator = grids.CoordinateLocation(round(0.1 * n + op["factor"], 3), round(op["T"] / 700.0 - 0.05 * n, 3), 0.0, b.spatialGrid)
+            counts["emptygrid"] += 1
         elif kind == "discharge":
             assems = list(r.core)
             sfp = r.excore.get("sfp") if hasattr(r, "excore") else None
